@@ -110,21 +110,29 @@ func (b *Builder) WithMaxResumesPerSession(max int) *Builder {
 
 // WithMaxTemplateChars sets the maximum number of characters allowed from an evaluated template
 func (b *Builder) WithMaxTemplateChars(max int) *Builder {
-	b.eng.options.MaxTemplateChars = max
+	b.eng.options.MaxTemplateChars = atLeastZero(max)
 	return b
 }
 
 // WithMaxFieldChars sets the maximum number of characters allowed in a contact field value
 func (b *Builder) WithMaxFieldChars(max int) *Builder {
-	b.eng.options.MaxFieldChars = max
+	b.eng.options.MaxFieldChars = atLeastZero(max)
 	return b
 }
 
 // WithMaxResultChars sets the maximum number of characters allowed in a result value
 func (b *Builder) WithMaxResultChars(max int) *Builder {
-	b.eng.options.MaxResultChars = max
+	b.eng.options.MaxResultChars = atLeastZero(max)
 	return b
 }
 
 // Build returns the final engine
 func (b *Builder) Build() flows.Engine { return b.eng }
+
+// a negative character limit makes no sense and would have text truncation slice out of range
+func atLeastZero(max int) int {
+	if max < 0 {
+		return 0
+	}
+	return max
+}
